@@ -17,7 +17,7 @@ from .c02 import nan_group_mask
 ID = "C03"
 RULE = (
     "Hypothesis: reduce cases (all reductions with a combine stage; 1-D labels, optional batch dim) with 3..16 blocks "
-    "along the reduced axis, method in {map-reduce, cohorts, None}, and scan cases (nancumsum/ffill/bfill) with 2..12 "
+    "(one case in eight: 17-80 size-1 blocks) along the reduced axis, method in {map-reduce, cohorts, None}, and scan cases (nancumsum/ffill/bfill) with 2..12 "
     "blocks (arg-reductions compared on NaN-free groups only, nanarg* on not-all-NaN groups: the domain on which they are specified). Systematic sweep per case: split_every = every value 2..nblocks (sampled to <=6 values incl. 2, 3 and "
     "nblocks when nblocks > 7), each graph computed under the synchronous scheduler, the threaded scheduler (4 workers) "
     "and the harness-owned scheduler in orders {seeded random x2, min-key, max-key, depth-first, breadth-first}, optimised "
@@ -48,7 +48,10 @@ def cases(draw, tier="quick"):
     else:
         dt = draw(st.sampled_from(["<f8", "<f8", "<f8", "<f4", "<i8", "|i1"]))
     nblocks = draw(st.integers(2 if is_scan else 3, 12 if is_scan else 16))
-    sizes = [draw(st.sampled_from([1, 1, 2, 2, 3])) for _ in range(nblocks)]
+    if draw(st.integers(0, 7)) == 0:
+        # rare: many blocks (deep trees with the default split_every, block counts just above its powers)
+        nblocks = draw(st.sampled_from([17, 18, 19, 20, 33, 64, 65, 66, 80])) if not is_scan else draw(st.integers(13, 40))
+    sizes = [draw(st.sampled_from([1, 1, 2, 2, 3])) if nblocks <= 16 else 1 for _ in range(nblocks)]
     n = sum(sizes)
     batch = draw(st.sampled_from([[], [], [2]]))
     nb = 2 if batch else 1
@@ -73,6 +76,8 @@ def strategy(tier):
 def split_values(nblocks):
     if nblocks <= 7:
         return list(range(2, nblocks + 1))
+    if nblocks > 16:
+        return sorted({2, 4, 8, nblocks})
     return sorted({2, 3, 4, nblocks // 2, nblocks - 1, nblocks})
 
 
